@@ -257,10 +257,10 @@ func calcCueItvls(segStart, segDur, utcStart, cueDur int) []cueItvl {
 	cueFullS := int(math.Ceil(float64(cueDur) * 0.001))
 	cueFullMS := cueFullS * 1000
 
-	for utcS := utcStart / cueFullMS; utcS <= (utcStart+segDur)/cueFullMS; utcS += cueFullS {
+	for utcS := utcStart / cueFullMS * cueFullS; utcS*1000 < utcEndMS; utcS += cueFullS {
 		cueStartMS := utcS * 1000
-		if cueStartMS == utcEndMS {
-			break
+		if cueStartMS+cueDur <= utcStart {
+			continue // The cue ended before the segment starts
 		}
 		ci := cueItvl{
 			utcS:    utcS,
